@@ -31,6 +31,8 @@ func runC14(c *Ctx, r *Report) {
 	c14R2(c, r, "C14.R2")
 	c14R4(c, r, "C14.R4")
 	c14R5(c, r, "C14.R5")
+	c14Region(c, r, "C14.R6")
+	c14Clock(c, r, "C14.R7")
 }
 
 // fieldAccesses returns for every function the struct fields it loads and stores.
